@@ -72,6 +72,29 @@ def problem_matrix(kind, n):
     raise ValueError(kind)
 
 
+from pySDC.core.hooks import meta_data as _meta_data
+from collections import namedtuple as _nt
+
+_ext_meta = {**_meta_data, 'flag': None}
+
+
+class ExtEntryHook(Hooks):
+    """a user hook with its own extended entry class (documented feature): one record WITHOUT the extra key field before each step, one WITH it after"""
+
+    meta_data = _ext_meta
+    entry = _nt('Entry', _ext_meta.keys())
+
+    def pre_step(self, step, level_number):
+        super().pre_step(step, level_number)
+        L = step.levels[level_number]
+        self.add_to_stats(process=step.status.slot, time=L.time, level=L.level_index, iter=0, sweep=L.status.sweep, type='c19x_start', value=1)
+
+    def post_step(self, step, level_number):
+        super().post_step(step, level_number)
+        L = step.levels[level_number]
+        self.add_to_stats(process=step.status.slot, time=L.time, level=L.level_index, iter=step.status.iter, sweep=L.status.sweep, type='c19x_end', value=2, flag='done')
+
+
 def build(cfg, float_mode=False):
     """cfg: dict(sweeper, prob, n, M (list per level), NP, qd, restol, maxiter, predict, jac, residual_type, dt, nsweeps, initial_guess)"""
     from harness import c02
@@ -105,7 +128,7 @@ def build(cfg, float_mode=False):
         d['space_transfer_class'] = FloatInject if float_mode else sp.Inject
         if cfg.get('finter'):
             d['base_transfer_params'] = {'finter': True}
-    cp = {'logger_level': 50, 'dump_setup': False, 'hook_class': [RecRes] + list(cfg.get('hooks', [])), 'predict_type': cfg.get('predict'),
+    cp = {'logger_level': 50, 'dump_setup': False, 'hook_class': [RecRes] + list(cfg.get('hooks', [])) + ([ExtEntryHook] if cfg.get('exthook') else []), 'predict_type': cfg.get('predict'),
           'mssdc_jac': cfg.get('jac', True), 'all_to_done': cfg.get('all_to_done', False)}
     return controller_nonMPI(cfg['NP'], cp, d), A
 
